@@ -51,10 +51,14 @@ pub struct Gen {
 }
 
 pub fn gen(with_adversary: bool, kinds: Vec<u8>, caps: Vec<usize>, max_ops: usize) -> impl Strategy<Value = Gen> {
+    gen_with(with_adversary, kinds, caps, max_ops, kinds_for, 2)
+}
+
+pub fn gen_with(with_adversary: bool, kinds: Vec<u8>, caps: Vec<usize>, max_ops: usize, op_kinds: fn(u8) -> Vec<PKind>, keys: u8) -> impl Strategy<Value = Gen> {
     gen_layout(kinds, caps).prop_flat_map(move |layout| {
-        let k = kinds_for(layout.kind);
+        let k = op_kinds(layout.kind);
         let adv = if with_adversary { prop::collection::vec(gen_prog(vec![PKind::Adversary], 2, 3), 0..2).boxed() } else { Just(vec![]).boxed() };
-        (Just(layout), prop::collection::vec(gen_prog(k, max_ops, 2), 2..4), adv, prop::collection::vec(prop::collection::vec(0u8..4, 0..60), 0..6), prop::collection::vec((prop::collection::vec(0u8..8, 4), prop::collection::vec(0u32..150, 0..4)), 0..4))
+        (Just(layout), prop::collection::vec(gen_prog(k, max_ops, keys), 2..4), adv, prop::collection::vec(prop::collection::vec(0u8..4, 0..60), 0..6), prop::collection::vec((prop::collection::vec(0u8..8, 4), prop::collection::vec(0u32..150, 0..4)), 0..4))
     })
     .prop_map(|(layout, mut progs, adv, walks, pct)| {
         progs.truncate(if adv.is_empty() { 3 } else { 2 });
